@@ -76,7 +76,7 @@ Definition memchr (m : list byte) (i n : nat) (c : byte) : cres (option nat) :=
   let* d := rdn m i n in Done (index_of c d).
 
 (* the loop of mpt_path_set over val[0..n) *)
-Fixpoint pscan (l : list byte) (n plen elem first : nat) (sep assign : byte)
+Fixpoint pscan (l : list byte) (n plen elem first : nat) (sep assign : byte) {struct n}
   : cres (nat * nat * nat * bool) :=
   match n with
   | 0 => Done (plen, elem, first, false)
@@ -191,14 +191,16 @@ Definition path_del (p : path) : cres (nat * path) :=
     in
     let* base' :=
       if parr p then
-        if length (pbase p) <? len' then Fail BadValue
-        else Done (firstn len' (pbase p))      (* _used = len (the offset is not added) *)
+        if length (pbase p) <? poff p + len' then Fail BadValue
+        else Done (firstn (poff p + len') (pbase p))      (* _used = off + len *)
       else Done (pbase p) in
     Done (part, mkpath base' (poff p) len' (if len' =? 0 then 0 else pfirst p)
                        (pbin p) (parr p) false (psep p) (passign p)).
 
 (* mpt_path_add(path, add): the first [add] post bytes become a new element *)
 Definition path_add (p : path) (add : nat) : cres path :=
+  (* base == NULL: an initialised or NULL-set path that never got an array *)
+  if negb (parr p) && (length (pbase p) =? 0) then Fail MissingBuffer else
   let len := poff p + plen p in
   let* (pre, post) :=
     if parr p then
@@ -214,9 +216,8 @@ Definition path_add (p : path) (add : nat) : cres path :=
         if parr p then Done (pbase p ++ repeat 0%N (2 - post))
         else let* d := rdn (pbase p) 0 pre in Done (d ++ [0%N; 0%N])
       else Done (pbase p) in
-    let* (data, first) :=
-      if len =? 0 then Done (data, u8 add)
-      else let* d := setnth data (len - 1) (N.of_nat add) in Done (d, pfirst p) in
+    let* data := if len =? 0 then Done data else setnth data (len - 1) (N.of_nat add) in
+    let first := if plen p =? 0 then u8 add else pfirst p in
     let* data := setnth data (len + add) (N.of_nat add) in
     let* data := setnth data (len + add + 1) 0%N in
     Done (mkpath data (poff p) (len + add + 2 - poff p) first (pbin p) (parr p) false (psep p) (passign p))
@@ -240,7 +241,13 @@ Definition path_add (p : path) (add : nat) : cres path :=
 (* post data is appended by the caller (mpt_path_addchar + mpt_path_valid per byte,
    the parser's business); here it is one step *)
 Definition path_post (p : path) (d : list byte) : path :=
-  mkpath (pbase p ++ d) (poff p) (plen p) (pfirst p) (pbin p) true true (psep p) (passign p).
+  match d with
+  | [] => p
+  | _ =>
+    (* without HasArray the first addchar copies the off + len path bytes into a new buffer *)
+    let b := if parr p then pbase p else firstn (poff p + plen p) (pbase p) in
+    mkpath (b ++ d) (poff p) (plen p) (pfirst p) (pbin p) true true (psep p) (passign p)
+  end.
 
 (* walk a path with mpt_path_next until it reports MissingData: the element byte strings *)
 Fixpoint path_walk (fuel : nat) (p : path) : cres (list (list byte)) :=
